@@ -56,6 +56,30 @@ def _w():
 
 WITNESSES = _w()
 
+def _corpus():
+    """C06 corpus (not findings: must PASS the check): a shadow assertion that is false in a non-final iteration and true in the
+    last one, in the shadow block itself and in a helper it calls, loops left normally / through break / through return.
+    A defect that lets the last pass of a loop overwrite the failure count turns each of them into 'PASSED, exit 0, binary'."""
+    c = {}
+    idf = fn(2, [(3, 'int')], 'int', ('ret', V(3)))
+    ne = lambda x, z: ('bin', 'ne', V(x), N(z))
+    c['c06:corpus:for-first-false-last-true'] = (prog([idf, MAIN]), {2: [('for', 4, N(0), N(3), ('assert', ne(4, 0)))]})
+    c['c06:corpus:while-middle-false-break'] = (prog([idf, MAIN]), {2: [('let', True, 4, 'int', N(0)),
+        ('while', ('bin', 'lt', V(4), N(5)), seq(('assert', ne(4, 1)), ('if', EQ(V(4), N(3)), ('break',), ('skip',)), ('set', 4, ('bin', 'add', V(4), N(1)))))]})
+    c['c06:corpus:for-last-false'] = (prog([idf, MAIN]), {2: [('for', 4, N(0), N(3), ('assert', ('bin', 'lt', V(4), N(2))))]})
+    helper = fn(5, [], 'int', seq(('let', True, 6, 'int', N(0)),
+                                  ('while', ('bin', 'lt', V(6), N(4)), seq(('assert', ne(6, 1)), ('if', EQ(V(6), N(2)), ('ret', N(7)), ('skip',)), ('set', 6, ('bin', 'add', V(6), N(1))))),
+                                  ('ret', N(7))))
+    c['c06:corpus:helper-while-middle-false-return'] = (prog([idf, helper, MAIN]), {5: [('let', False, 8, 'int', CALL(5)), ('assert', EQ(V(8), N(7)))]})
+    hk = fn(5, [(6, 'int')], 'int', seq(('assert', ne(6, 0)), ('ret', V(6))))
+    c['c06:corpus:helper-called-in-loop-first-false'] = (prog([idf, hk, MAIN]), {5: [('for', 8, N(0), N(3), ('expr', CALL(5, V(8)))), ('assert', B(True))]})
+    hf = fn(5, [], 'int', seq(('for', 6, N(0), N(4), ('assert', ('bin', 'ge', V(6), N(3)))), ('ret', N(7))))
+    c['c06:corpus:helper-for-all-but-last-false'] = (prog([idf, hf, MAIN]), {5: [('assert', EQ(CALL(5), N(7)))]})
+    return c
+
+
+CORPUS = _corpus()
+
 # hand-written source (outside the model's program type: extern function): a shadow test that is SKIPPED cannot fail the gate
 SKIP_EXTERN_SRC = '''extern fn labs(x: int) -> int
 fn f1(v2: int) -> int {
